@@ -69,6 +69,39 @@ def build(variant='default'):
     return d, exe, ''
 
 
+def literals(repo):
+    """string and byte-string literals of the crate's non-test source text (each file up to its first #[cfg(test)] / #[test]),
+    decoded, as hex lines: the dictionary of the witness search"""
+    import re
+    out = []
+    srcdir = os.path.join(repo, 'src')
+    for root, _, files in os.walk(srcdir):
+        for f in sorted(files):
+            if not f.endswith('.rs'):
+                continue
+            t = open(os.path.join(root, f), errors='replace').read()
+            cut = [m.start() for m in re.finditer(r'#\[cfg\(test\)\]|#\[test\]', t)]
+            if cut:
+                t = t[:cut[0]]
+            t = re.sub(r'//[^\n]*', '', t)
+            for m in re.finditer(r'b?"((?:[^"\\\n]|\\.)*)"', t):
+                raw, bs, i = m.group(1), bytearray(), 0
+                while i < len(raw):
+                    c = raw[i]
+                    if c == '\\' and i + 1 < len(raw):
+                        n = raw[i + 1]
+                        if n == 'x' and i + 3 < len(raw):
+                            try:
+                                bs.append(int(raw[i + 2:i + 4], 16)); i += 4; continue
+                            except ValueError:
+                                pass
+                        bs.append({'n': 10, 'r': 13, 't': 9, '0': 0, '\\': 92, '"': 34, "'": 39}.get(n, ord(n) & 0xff)); i += 2; continue
+                    bs.extend(c.encode('utf-8')); i += 1
+                if 2 <= len(bs) <= 200 and bytes(bs) not in out:
+                    out.append(bytes(bs))
+    return out
+
+
 def _search_one(variant, families, deep=0):
     d, exe, err = build(variant)
     out = dict(findings=[], error=None, evaluations=0)
@@ -78,7 +111,10 @@ def _search_one(variant, families, deep=0):
             return out
         for fam in families:
             try:
-                p = subprocess.run([exe, 'search', fam], capture_output=True, text=True, timeout=2400, env=dict(os.environ, WITNESS_DEEP=str(deep)))
+                dpath = os.path.join(d, 'dict.txt')
+                if not os.path.exists(dpath):
+                    open(dpath, 'w').write('\n'.join(x.hex() for x in literals(REPO)) + '\n')
+                p = subprocess.run([exe, 'search', fam], capture_output=True, text=True, timeout=2400, env=dict(os.environ, WITNESS_DEEP=str(deep), WITNESS_DICT=dpath))
             except subprocess.TimeoutExpired:
                 out['error'] = 'witness search timed out (%s)' % variant
                 continue
